@@ -4391,6 +4391,10 @@ GRsetattr(int32 id, const char *name, int32 attr_nt, int32 count, const void *da
         count <= 0 || DFKNTsize(attr_nt) == FAIL)
         HGOTO_ERROR(DFE_ARGS, FAIL);
 
+    /* the name is stored as the field name of the attribute's vdata: a longer one would come back truncated */
+    if (strlen(name) > FIELDNAMELENMAX)
+        HGOTO_ERROR(DFE_ARGS, FAIL);
+
     if (HAatom_group(id) == GRIDGROUP) {
         /* locate GR's object in hash table */
         if (NULL == (gr_ptr = (gr_info_t *)HAatom_object(id)))
